@@ -162,6 +162,9 @@ UnclaimedNotes == { "org-not-first",       \* "@org works only on the first inst
                     "bytes-length",        \* @bytes is for "an alternative set of opcodes" of the instruction: same length
                     "unlabelled-moved-ref",\* operand = address of an unlabelled instruction that moved:
                                            \* skool2asm keeps the number and warns "No label for address"
+                    "remove-of-inserted",  \* ! names the skool address at which only an instruction inserted by a later |
+                                           \* directive stands: is that "the instruction at the given address"?
+                                           \* (skool2asm drops it and what it overwrites, skool2bin keeps it: reported)
                     "if-on-option" }       \* a layout-changing directive under @if({base}|{case}|{html}|{vars[..]} ...):
                                            \* the author asks for an image that depends on skool2asm's options
 \* Inputs on which the tools must agree but this model is not definite
@@ -202,7 +205,7 @@ ItemSize(it) == IF it.bv # <<>> THEN Len(it.bv) ELSE Size(it.tok)
 \* instruction removes the skool addresses it covers.
 RECURSIVE Chain(_, _, _, _, _, _)
 Chain(ds, a, off, rem, src, known) ==
-  IF ds = <<>> THEN [items |-> <<>>, a |-> a, rem |-> rem, bad |-> FALSE]
+  IF ds = <<>> THEN [items |-> <<>>, a |-> a, rem |-> rem, bad |-> FALSE, hit |-> FALSE]
   ELSE LET d == Head(ds)
            sz == Size(d.tok)
            ov == d.ovw = 1 /\ src = "post"
@@ -210,7 +213,8 @@ Chain(ds, a, off, rem, src, known) ==
            rem1 == IF ov /\ known THEN rem \cup { a + off + i : i \in 0..(sz - 1) } ELSE rem
            r == Chain(Tail(ds), a + sz, off, rem1, src, known /\ ov)
        IN [items |-> <<Item(a, d.tok, -1, va, src, d.lab, <<>>, <<>>, FALSE, ov /\ known)>> \o r.items,
-           a |-> r.a, rem |-> r.rem, bad |-> r.bad \/ (ov /\ ~known)]
+           a |-> r.a, rem |-> r.rem, bad |-> r.bad \/ (ov /\ ~known),
+           hit |-> r.hit \/ (ov /\ known /\ (a + off) \in rem)]
 
 \* pending data directives poke their bytes from the address of the next instruction onwards
 RECURSIVE Pokes(_, _)
@@ -261,6 +265,7 @@ InsLine(s, line) ==
       post == Chain(later, a2, off, rem1, "post", known /\ ovw)
       laterNoIns == SelectSeq(IF repl THEN Tail(rest) ELSE rest, LAMBDA d : d.has = 0 /\ d.lab # "")
       n2 == (IF post.bad \/ (ovw /\ ~known) THEN {"overwrite-unplaced"} ELSE {})
+            \cup (IF post.hit THEN {"remove-of-inserted"} ELSE {})
             \cup (IF s.pkeep /\ \E x \in Range(pre.items \o post.items) : Refs(x.tok) # {} THEN {"keep-on-inserted"} ELSE {})
             \cup (IF s.pbytes # <<>> /\ s.pbytes # Bytes(cur, a1, cur.t) THEN {"bytes-override"} ELSE {})
             \cup (IF \E d \in Range(D) : d.pre = 1 /\ d.app = 1 THEN {"before-and-after"} ELSE {})
